@@ -1,5 +1,5 @@
 \* response longer than the replay buffer: retries must be refused once the buffer is full
-CONSTANTS M = 4 N = 2 MaxAttempts = 3 MaxFail = 3 StaleReader = FALSE LockStep = FALSE BufferAll = FALSE
+CONSTANTS M = 4 N = 2 MaxAttempts = 3 MaxFail = 3 StaleReader = FALSE LockStep = FALSE BufferAll = FALSE Timers = {}
 SPECIFICATION Spec
 CHECK_DEADLOCK FALSE
 INVARIANTS AckedIntegrity AtMostThree
